@@ -87,10 +87,11 @@ ValidHistory(h) == Len(h) >= 1 /\ HistOK(h, Len(h))
 (* result is the number of the revision whose definition is returned, 0 for  *)
 (* the null object.                                                          *)
 
-RefLookup(h, n, g) ==
-  IF n \notin ObjsOf(h) THEN 0
-  ELSE LET s == StateAfter(h, Len(h))[n]
-       IN IF s.st = "used" /\ s.g = g THEN s.r ELSE 0
+\* st is the state after the newest revision
+RefIn(st, n, g) ==
+  IF n \notin DOMAIN st THEN 0
+  ELSE IF st[n].st = "used" /\ st[n].g = g THEN st[n].r ELSE 0
+RefLookup(h, n, g) == RefIn(StateAfter(h, Len(h)), n, g)
 
 \* the trailer entries reported are those of the newest revision
 RefTrailer(h) == Len(h)
